@@ -112,6 +112,14 @@ class Check:
         self.violations.append((sig, what, path))
         return True
 
+    def enough(self):
+        """stop exploring once plenty of violations are in hand (a badly broken tree must not cost hours)"""
+        if len(self.violations) + self.extra.get("duplicate_violations", 0) >= 40:
+            self.extra["stopped_early_after_violations"] = len(self.violations)
+            self.exhaustive = False
+            return True
+        return False
+
     # -- finish
     def finish(self):
         os.makedirs(EVID_DIR, exist_ok=True)
@@ -121,7 +129,7 @@ class Check:
         cov["rule"] = self.rule
         cov["samples"] = self.samples if self.samples else ["(none)"]
         if self.exhaustive is not None:
-            cov["exhaustive"] = bool(self.exhaustive)
+            cov["exhaustive"] = bool(self.exhaustive) and "stopped_early_after_violations" not in self.extra
         if self.caps:
             cov["caps"] = self.caps
         cov["known_findings_hit"] = {k: c for k, (w, c) in self.known_hits.items()}
@@ -180,7 +188,7 @@ def _run_item(arg):
         signal.alarm(0)
 
 
-def pmap(fn, items, timeout=120, procs=None, chunksize=4, maxtasks=400, init=None):
+def pmap(fn, items, timeout=120, procs=None, chunksize=4, maxtasks=400, init=None, stop=None):
     """Map a module-level function over items in a worker pool; yields (index, result) in completion order.
 
     Results are merged by the caller by index, so worker assignment never influences a verdict.
@@ -191,6 +199,8 @@ def pmap(fn, items, timeout=120, procs=None, chunksize=4, maxtasks=400, init=Non
         _init(fn.__module__, fn.__name__, init)
         for i, it in enumerate(items):
             yield _run_item((i, it, timeout))
+            if stop is not None and stop():
+                return
         return
     ctx = mp.get_context("fork")
     with ctx.Pool(procs, initializer=_init, initargs=(fn.__module__, fn.__name__, init),
@@ -198,6 +208,9 @@ def pmap(fn, items, timeout=120, procs=None, chunksize=4, maxtasks=400, init=Non
         for r in pool.imap_unordered(_run_item, [(i, it, timeout) for i, it in enumerate(items)],
                                      chunksize=chunksize):
             yield r
+            if stop is not None and stop():
+                pool.terminate()
+                return
 
 
 def harness_fail(msg):
